@@ -110,3 +110,28 @@ MANIFEST_TEXT['C18'] = dict(
                'nesting/overlap/summary flags, all orders of incremental builds of two modules, re-index fixpoint.',
     level_note='Trusted: CrossHair/z3 string model; json replaced by identity. Outside: longer arcs, more modules.')
 _finalise()
+
+TOK_STUBS = ['FakeLexer: token source with concrete token types and symbolic values (the lexer is covered by the LEX/RX conditions of C02/C05/C11)',
+             'jinja2 in pysmi.codegen.jsondoc / pysmi.codegen.pysnmp replaced by a capture object: render(mib=ctx) returns ctx']
+TOK_FILES = ['pysmi/parser/smi.py', 'pysmi/parser/dialect.py', 'pysmi/lexer/smi.py', 'pysmi/codegen/symtable.py',
+             'pysmi/codegen/intermediate.py', 'pysmi/codegen/base.py', 'pysmi/codegen/jsondoc.py', 'pysmi/codegen/pysnmp.py']
+TOK_FUNCS = ['ply.yacc.LRParser.parse driven by the LALR tables of pysmi.parser.smi.SmiV2Parser (all p_* actions)',
+             'pysmi.codegen.symtable.SymtableCodeGen.genCode (+ handlers)', 'pysmi.codegen.intermediate.IntermediateCodeGen.genCode (+ handlers)',
+             'pysmi.codegen.jsondoc.JsonCodeGen.genCode', 'pysmi.codegen.pysnmp.PySnmpCodeGen.genCode (up to render)']
+
+PROPS['C01'] = dict(
+    modules=['harness.c01_oid'], level='other', files=TOK_FILES,
+    explanation=XH + '. C01: token sentences with symbolic tree shape / declaration order / spelling / kind / module split and '
+                'unbounded symbolic arcs go through the real LR parser, symbol table and code generators; resolved OIDs are compared '
+                'with the harness\' own tree.',
+    functions=TOK_FUNCS, stubs=TOK_STUBS,
+    bounds='<=4 nodes, <=3 modules; arcs unbounded (K1, compared as int tuples) or from a boundary set (K2, rendered forms)',
+    outside=['the rendered JSON / Python text (template layer)', 'trees with more than 4 named nodes', 'K2 arcs outside the boundary set',
+             'identifiers that are Python keywords (known finding, see C04/C03)'],
+    assumptions=['CPython: int(str(a)) == a and "." not in str(a) for a >= 0'])
+MANIFEST_TEXT['C01'] = dict(
+    technique='CrossHair symbolic execution of real parser actions + symbol table + code generators on model-generated token sentences',
+    level_text='Solver-exhaustive within bounds: all tree shapes/orders/spellings/kinds/module splits of the stated sizes with unbounded '
+               'symbolic arcs; OIDs compared against an independent ground-truth tree.',
+    level_note='Trusted: CrossHair/z3, PLY LALR construction; the lexer is not part of these conditions; template rendering captured.')
+_finalise()
